@@ -201,11 +201,32 @@ theorem ensureCapacity_spec (b : T) (n : Nat) :
     ∧ n ≤ (ensureCapacity b n).data.length :=
   ⟨ensure_bit b n, ensure_set b n, ensure_length b n⟩
 
+/-- **EnsureCapacity** with a zero, negative or any other Go `int` argument is `ensureCapacity` of the clamped value
+    (the driver executes `applyOp (.ensure r words.toNat)`); in particular a request `≤ 0` changes nothing -/
+theorem ensureCapacity_int (b : T) (words : Int) :
+    ensureCapacityInt b words = ensureCapacity b words.toNat ∧ (words ≤ 0 → ensureCapacityInt b words = b) := by
+  unfold ensureCapacityInt ensureCapacity
+  refine ⟨?_, fun h => ?_⟩
+  · simp only
+    split
+    · rfl
+    · rename_i hn
+      have : ¬ words.toNat > b.data.length := by simp only [Int.ofNat_eq_natCast] at hn; omega
+      simp [this]
+  · simp only
+    have : ¬ words > Int.ofNat b.data.length := by simp only [Int.ofNat_eq_natCast]; omega
+    rw [if_neg this]
+
 /-- **Clone** / **Copy** produce the same set with the same count -/
 theorem clone_copy_spec (b o : T) :
     (∀ x, mem (clone b) x = mem b x) ∧ count (clone b) = count b
     ∧ (∀ x, mem (copy b o) x = mem o x) ∧ count (copy b o) = count o :=
   ⟨fun _ => rfl, rfl, fun _ => rfl, rfl⟩
+
+/-- **Copy** of a bit set onto itself (`b.Copy(b)`) is the identity — on the bit set and on a whole history state -/
+theorem copy_self (b : T) (p : Pair) (r : Reg) : copy b b = b ∧ applyOp p (.copy r r) = p := by
+  refine ⟨rfl, ?_⟩
+  cases r <;> rfl
 
 /-- **Reset** gives the empty set with count 0 -/
 theorem reset_spec (b : T) : (∀ x, mem (reset b) x = false) ∧ count (reset b) = 0 :=
